@@ -778,12 +778,26 @@ func (repo *Repository) MarkHeaderInvalid(ctx context.Context, hash bitcoin.Hash
 
 	// Check if hash was previously accepted
 	branch, height := repo.branches.Find(hash)
-	if branch != nil {
+	if branch == nil {
 		return nil // not found
+	}
+
+	// Remember which hashes are in the branches so the removed ones can be forgotten.
+	var previousHashes []bitcoin.Hash32
+	for _, b := range repo.branches {
+		for _, data := range b.headers {
+			previousHashes = append(previousHashes, data.Hash)
+		}
 	}
 
 	if err := repo.branches.Trim(branch, height); err != nil {
 		return errors.Wrap(err, "trim")
+	}
+
+	for _, previousHash := range previousHashes {
+		if _, h := repo.branches.Find(previousHash); h == -1 {
+			delete(repo.heights, previousHash)
+		}
 	}
 
 	longest := repo.branches.Longest()
